@@ -300,6 +300,9 @@ impl Prop for C15 {
     let c = cal();
     match t {
       "days" => {
+        // route equivalence of the objects this property reads (see routes.rs)
+        prop_run(env, out, "routes", env.tier.pick(1600, 64000) / nshards as u32, 8800 + shard as u64, crate::routes::date_strategy(), &ev);
+        out.set_exhaustive("routes", false);
         // strided walks on fresh threads (see engine::stride_walks)
         stride_walks(env, out, "day", env.tier.pick(3200, 96000) / nshards as u32, 7000 + shard as u64, 366, (crate::model::NDAYS as i64) - 366, 800, &|x| vec![x], &ev);
         let (ylo, yhi) = shard_range(9997, shard, nshards);
@@ -334,6 +337,7 @@ impl Prop for C15 {
   fn eval(&self, env: &Env, out: &mut Out, sub: &str, case: &Case) {
     match sub {
       "day" => self.eval_day(env, out, case),
+      "routes" => crate::routes::compare_day_routes(env, out, "routes", case, (case.a[0].clamp(0, crate::model::NDAYS as i64 - 1)) as usize, &crate::routes::fields_c15),
       _ => panic!("unknown sub-check {}", sub),
     }
   }
